@@ -1,6 +1,6 @@
 package probe
 
-// verifgate <gen> [failstartup]: registers OnStartup / OnShutdown callbacks on the instance
+// verifgate <gen> [failstartup|panicsetup]: registers OnStartup / OnShutdown callbacks on the instance
 // that call the harness's Gate function (callback gates: the harness can observe, and act
 // inside, the two windows of a reload that nothing else exposes) and optionally fail startup.
 
@@ -45,6 +45,10 @@ func init() {
 				return c.Err("verifgate: bad generation")
 			}
 			fail = len(args) > 1 && args[1] == "failstartup"
+			if len(args) > 1 && args[1] == "panicsetup" {
+				var m map[string]int
+				m["scripted panic in a directive's setup function"] = gen
+			}
 		}
 		c.OnStartup(func() error {
 			callGate("startup", gen)
